@@ -14,6 +14,10 @@ RULE = (
     "standardize/scale, T/C+Treatment, S/C+Sum) over the pool with identical matrices, labels modulo the name, and "
     "identical behaviour on every new frame.  A case is one helper expression; non-trivial: it is evaluated on new "
     "frames too"
+    '  Added: integer levels whose string order differs, a zero level, an empty-string level, close float '
+    'values, declared-but-unobserved categories, an unordered Categorical with unsorted categories in the '
+    'alias pairs, a work frame updated in place between evaluations, the data-frame view of every new-data '
+    'result. '
 )
 ASSUMPTIONS = ["new frames are made of rows of the training frame (C06 space); values outside the training frame are C10's business"]
 
